@@ -1638,7 +1638,11 @@ func matchRegex(re *syntax.Regexp) ([]string, bool) {
 			sz += int(re.Rune[i+1]) - int(re.Rune[i]) + 1
 		}
 
-		if sz > maxLiterals {
+		if sz == 0 {
+			// An empty class matches nothing, which is not the same as
+			// matching the empty string.
+			return nil, false
+		} else if sz > maxLiterals {
 			return nil, false
 		}
 
